@@ -119,14 +119,14 @@ RangeToken* RangeTokenMap::getRange(const XMLCh* const keyword,
         return 0;
 
     RangeTokenElemMap* elemMap = fTokenRegistry->get(keyword);
+
+    // The range tokens are created lazily by whichever thread asks first;
+    // they are written under the mutex, so they have to be read under it too.
+    XMLMutexLock lockInit(&fMutex);
     RangeToken* rangeTok = elemMap->getRangeToken(complement);
 
     if (!rangeTok)
     {
-        XMLMutexLock lockInit(&fMutex);
-
-        // make sure that it was not created while we were locked
-        rangeTok = elemMap->getRangeToken(complement);
 
         if (!rangeTok)
         {
